@@ -1,3 +1,42 @@
-from . import srvlib
-def run(ctx,res):
-    srvlib.run_family(ctx,res,"c02")
+"""C02 - JSON-RPC 2.0 conformance on arbitrary inbound records.  This module runs the PURE part: the two-level
+parse (envelope, then member scan) of coq/wire/Wire.v against jrpc2.ParseRequests on the per-field variant
+product, batches, random and mutated records, with map-order dependent outcomes judged against the model's
+allowed set; plus the encoding/json glue the parser model relies on.  The live-server part (replies, handler log,
+liveness probe) is driven by the server model."""
+from . import wirelib, srvlib
+from . import common as C
+
+TRUSTED = ["encoding/json Unmarshal into RawMessage / []RawMessage / map[string]RawMessage / string / **Error is modelled by "
+           "coq/json/Json.v and compared with the real package on every run (jsonglue family)",
+           "Go map iteration order: the harness executes every case 6 times and requires every observed outcome to lie in "
+           "the model's allowed set (proved order independent in c02_member_err_order_independent)"]
+ASSUMPTIONS = ["nesting depth of inbound values at most encoding/json's limit of 10000 (modelled, tested at the boundary in the thorough tier)"]
+
+
+TRUSTED += ["live-server part: as C01 (server model SrvModel.v, scheduling harness, synctest)"]
+
+
+def run(ctx, res):
+    wirelib.run_wire(ctx, res, "c02pure")
+    if ctx.get("replay"):
+        import json
+        try:
+            if json.load(open(ctx["replay"])).get("family") != "c02":
+                return
+        except Exception:
+            return
+    # live-server part: records of the per-field variant families fed to a running server (family c02): replies,
+    # handler log and continued service compared with the server model, whose classification of members is the
+    # one proved about Wire.parse_member (c02_parse_classification)
+    r2 = C.Result()
+    srvlib.run_family(ctx, r2, "c02")
+    res.violations += r2.violations
+    res.evaluations += r2.evaluations
+    res.distinct_nontrivial += r2.distinct_nontrivial
+    res.samples = (res.samples or [])[:4] + (r2.samples or [])[:2]
+    res.notes += r2.notes
+    res.rule = (res.rule or "") + " || live server: seeded histories of family c02 (mostly invalid members of every single-defect " \
+        "kind, exotic ids, reply-shaped members, non-JSON and empty batches, interleaved with valid calls whose answers show " \
+        "the server keeps serving) run under the scheduling harness and replayed through the server model"
+    res.extra["live_server"] = r2.extra
+
